@@ -16,9 +16,10 @@
 (*   [kind |-> "write", src |-> Source, w |-> Write, ret |-> <<RetItem>>]  *)
 (* Source  none | match (n) | matchwith (n) WITH n | match2 (n),(m)        *)
 (*         | matchrel (n)-[r:t]->(m) | unwind <<v1..vk>> AS x              *)
-(* Write   create | createrel | merge (ON CREATE / ON MATCH SET) | set     *)
+(* Write   create | createrel | merge (ON CREATE / ON MATCH SET) | mergerel *)
+(*         (MERGE (n)-[:t]->(m) between bound endpoints) | set             *)
 (*         (property, += map, label) | remove (property, label) | delete   *)
-(*         (node / relationship, DETACH)                                   *)
+(*         (node / relationship, DETACH) | deletemany (DELETE n, r, ..)    *)
 (*                                                                         *)
 (* Semantics, per openCypher: clause at a time over the row table.  The    *)
 (* source clause yields the rows (a MATCH in an unspecified order - the    *)
@@ -254,6 +255,14 @@ ApplyRow(g, row, w) ==
                          IF r.err THEN Fail(g)
                          ELSE LET r2 == SetItems(r.g, r.id, w.oncreate, [row EXCEPT !.n = r.id]) IN
                               IF r2.err THEN Fail(g) ELSE Done(r2.g, <<[row EXCEPT !.n = r.id]>>)
+      [] w.kind = "mergerel" ->
+            \* MERGE (n)-[r:t]->(m) between bound endpoints: every existing t-relationship n->m is a match (one row
+            \* each, nothing changes); none = exactly one is created.  Legacy "merge_rel_blind": it never looked.
+            LET found == {e \in LiveE(g) : g.rels[e].type = w.t /\ g.rels[e].src = row.n /\ g.rels[e].dst = row.m} IN
+            IF found # {} /\ "merge_rel_blind" \notin Legacy
+            THEN Done(g, [j \in 1..Cardinality(found) |-> row])
+            ELSE LET rr == NewRel(g, row.n, row.m, w.t, NoProps) IN
+                 IF rr.err THEN Fail(g) ELSE Done(rr.g, <<row>>)
       [] w.kind = "set" ->
             LET r == SetItems(g, row.n, w.items, row) IN
             IF r.err THEN Fail(g) ELSE Done(r.g, <<row>>)
@@ -290,8 +299,22 @@ RetVal(item, row, g) ==
 RetRows(g, out, ret) ==
     IF ret = <<>> THEN <<>> ELSE [j \in DOMAIN out |-> [c \in DOMAIN ret |-> RetVal(ret[c], out[j], g)]]
 
+\* DELETE naming several variables (DELETE n, r / DELETE r, n, m ...) is decided over the WHOLE row table, whatever
+\* the order of the names: a node may go without DETACH exactly when every relationship it has is deleted by the same
+\* clause; otherwise the statement is refused and - like every refused statement - nothing is deleted, not even the
+\* relationships it names.
+DeleteTable(g, rows, w) ==
+    LET vs == ToSet(w.vars)
+        R0 == IF "r" \in vs THEN {rows[j].r : j \in DOMAIN rows} \cap LiveE(g) ELSE {}
+        N == UNION {{rows[j][v] : j \in DOMAIN rows} : v \in vs \ {"r"}} \cap LiveN(g)
+        R == IF w.detach THEN R0 \cup UNION {Incident(g, i) : i \in N} ELSE R0
+    IN IF \E i \in N : ~(Incident(g, i) \subseteq R)
+       THEN [err |-> TRUE, g |-> g, pg |-> g, out |-> <<>>, at |-> 0]
+       ELSE [err |-> FALSE, pg |-> g, out |-> rows, at |-> 0,
+             g |-> [RemoveRels(g, R) EXCEPT !.nodes = [i \in NodeIds |-> IF i \in N THEN DeadNode ELSE g.nodes[i]]]]
+
 Exec(g, st, rows) ==
-    LET r == Run(g, <<>>, rows, 1, st.w) IN
+    LET r == IF st.w.kind = "deletemany" THEN DeleteTable(g, rows, st.w) ELSE Run(g, <<>>, rows, 1, st.w) IN
     [err |-> r.err, g |-> r.g, pg |-> r.pg, at |-> r.at, rows |-> IF r.err THEN <<>> ELSE RetRows(r.g, r.out, st.ret)]
 
 \* ------------------------------------------------------------------ isomorphism that fixes the old entities
